@@ -134,12 +134,12 @@ def snap(obj, depth=0):
     if isinstance(obj, osyris.Array):
         return ("Array", id(obj), np.array(obj.values, copy=True), str(obj.unit), obj.name)
     if isinstance(obj, osyris.Vector):
-        return ("Vector", id(obj), [snap(c, depth + 1) for c in obj._xyz.values()], obj.name)
+        return ("Vector", id(obj), [snap(c, depth + 1) for c in core.vcomps(obj)], obj.name)
     if isinstance(obj, osyris.Datagroup):
         return ("Datagroup", id(obj), [(k, snap(v, depth + 1)) for k, v in obj.items()])
     if isinstance(obj, osyris.core.Layer):
-        return ("Layer", id(obj), obj.key, obj.mode, obj.operation, obj.norm, obj.vmin, obj.vmax, snap(obj.bins, depth + 1), snap(obj.weights, depth + 1),
-                snap(obj.kwargs, depth + 1), [(k, id(v)) for k, v in obj.arrays.items()])
+        # every instance attribute, whatever it is called (the data Arrays themselves are snapshotted through the Datagroup)
+        return ("Layer", id(obj), [(k, snap(v, depth + 1)) for k, v in sorted(vars(obj).items())])
     if isinstance(obj, dict):
         return ("dict", id(obj), [(k, snap(v, depth + 1)) for k, v in obj.items()])
     if isinstance(obj, (list, tuple)):
